@@ -10,7 +10,7 @@ TRUSTED_BASE_COMMON = [
 
 PROPS = {
     "C17": {
-        "rule": "boundary values of both constructors (0, unit-1, unit, unit+1, 4294..4296, (2^32-1)*unit+unit-1, first value past the guard, powers of two) plus seeded random u64 in four strata (full range, inside the guard, small, seconds*unit+sub).",
+        "rule": "boundary values of both constructors (0, unit-1, unit, unit+1, 4294..4296, (2^32-1)*unit+unit-1, first value past the guard, powers of two) plus seeded random u64 in four strata (full range, inside the guard, small, seconds*unit+sub). Plus every input whose quotient by 1000 / 10^6 / 10^9 sits on a power of two (and its neighbours), and multiples of 2^32 with the second they fall into.",
         "assumptions": ["u64 arithmetic modelled as N with explicit `as u32` wrap and checked u32 multiplication"],
     },
     "C01": {
@@ -22,20 +22,20 @@ PROPS = {
         "assumptions": ["Spec/Layout.v is the independent description of the AUTOSAR DLT layout (own bit-field code via testbit/div/mod, total non-streaming readers, cut-then-decode); it is proved equal to the model of the crate for all inputs (c02_encode, c02_decode) and run against the crate here"],
     },
     "C03": {
-        "rule": "op 21 (parse + use of the result), ops 10/11/12/3 on hostile inputs: mutated/truncated/length-corrupted/NOAR-corrupted well-formed messages, hand-made dialect and malformed encodings, random bytes, junk prefixes, inputs > 64 KiB with a 0xffff-sized string/raw argument; storage mode both ways; a third with a filter.",
+        "rule": "op 21 (parse + use of the result), ops 10/11/12/3 on hostile inputs: mutated/truncated/length-corrupted/NOAR-corrupted well-formed messages, hand-made dialect and malformed encodings, random bytes, junk prefixes, inputs > 64 KiB with a 0xffff-sized string/raw argument; storage mode both ways; a third with a filter. Plus op 13 (construct_arguments): exact payloads, every truncation, trailing bytes, field sizes 255..65535. All under a trace-level null logger.",
     },
     "C04": {
         "rule": "ops 8/10/25 on hostile and dialect inputs concentrated on messages whose argument encoding is shorter/longer than the declared payload, NOAR too small/large, trailing garbage; half of them with a filter.",
     },
     "C05": {
-        "rule": "op 23: every cut position 0..len-1 of seeded well-formed messages (all payload kinds, both storage modes), a third with a filter; the skipper on every cut of storage-header messages.",
+        "rule": "op 23: every cut position 0..len-1 of seeded well-formed messages (all payload kinds, both storage modes), a third with a filter; the skipper on every cut of storage-header messages. Plus op 31: messages whose length field is 65519, 65520, 65521, 65534, 65535, 32768, 256 at ~24 selected cut positions each (around the storage/standard/extended header ends, middle, last bytes, random).",
     },
     "C06": {
         "extra_property_files": ["C06b"],
-        "rule": "op 12 on pattern-dense strings over {D,L,T,01,00}; op 24 junk ++ message ++ rest with junk tails that are partial patterns/near misses; op 29 streams of 1-5 messages separated by junk.",
+        "rule": "op 12 on pattern-dense strings over {D,L,T,01,00}; op 24 junk ++ message ++ rest with junk tails that are partial patterns/near misses; op 29 streams of 1-5 messages separated by junk. Plus pattern-free junk of 65547, 65548, 65551, 65552, 70000, 131072, 140001 bytes with near misses at its end (ops 12 and 24).",
     },
     "C07": {
-        "rule": "op 40: streams of 0-5 well-formed messages (all payload kinds, both storage modes), intact or truncated (anywhere / at header, length-field and body boundaries), with hostile length fields (0..3, larger than what is left, off by a little), byte flips, random and tiny streams, hostile slice-parser inputs; x read() schedules (whole reads, one byte at a time, random short reads with Interrupted, stops exactly on header/length/body boundaries, runs of 0-3 interruptions before every delivery, a single interruption at every position; thorough: every 2-way partition of short streams) x BufReader capacities; a quarter with a filter. The implementation's source implements std::io::Read from (stream, schedule).",
+        "rule": "op 40: streams of 0-5 well-formed messages (all payload kinds, both storage modes), intact or truncated (anywhere / at header, length-field and body boundaries), with hostile length fields (0..3, larger than what is left, off by a little), byte flips, random and tiny streams, hostile slice-parser inputs; x read() schedules (whole reads, one byte at a time, random short reads with Interrupted, stops exactly on header/length/body boundaries, runs of 0-3 interruptions before every delivery, a single interruption at every position; thorough: every 2-way partition of short streams) x reader construction (::new with the crate's default capacities, with_capacity 65551 / 70000); a quarter with a filter. The implementation's source implements std::io::Read from (stream, schedule).",
         "assumptions": ["std::io::BufReader / Read::read_exact modelled from the standard-library source (bufreader.rs, io/mod.rs default_read_exact); what std and the OS really do is exercised by this run, not proved",
                         "DltMessageReader::with_capacity with buffer_capacity < message_max_len trips the crate's own debug_assert and is outside the claim"],
     },
@@ -46,7 +46,7 @@ PROPS = {
     },
     "C09": {
         "extra_property_files": ["C09b"],
-        "rule": "op 26: well-formed messages (a third forced to log messages incl. invalid levels) x filter configurations (each criterion absent/present, sets containing/not containing the message's ids, duplicated ids, counts around the set sizes, all level numbers); op 27 both conversions incl. all 256 level numbers.",
+        "rule": "op 26: well-formed messages (a third forced to log messages incl. invalid levels) x filter configurations (each criterion absent/present, sets containing/not containing the message's ids, duplicated ids, counts around the set sizes, all level numbers); op 27 both conversions incl. all 256 level numbers. ids include trim-/case-sensitive ones (trailing/leading blank, tab, NBSP, NEL, case twins) and the filter sets contain near misses (trimmed, padded, case-changed) of the message's ids; op 30: hand-built processed configurations whose minimum level is any level incl. Invalid(_).",
     },
     "C11": {
         "extra_property_files": ["C11b"],
@@ -65,17 +65,17 @@ PROPS = {
         "assumptions": ["IEEE-754 binary64 multiplication and Rust's int->f64 / f32->f64 / f64->u64 casts are modelled with the standard library's SpecFloat (SFmul 53 1024, binary_normalize); the model is thereby checked against rustc's arithmetic on every case"],
     },
     "C13": {
-        "rule": "op 13: lists of 0-5 signal types x exact payloads, every truncation (a quarter of the cases) or one random truncation, trailing bytes, strings with invalid UTF-8 / NUL, both byte orders; a tenth include fixed-point signal types.",
+        "rule": "op 13: lists of 0-5 signal types x exact payloads, every truncation (a quarter of the cases) or one random truncation, trailing bytes, strings with invalid UTF-8 / NUL, both byte orders; a tenth include fixed-point signal types. One case in 97 uses field sizes 255, 256, 32767, 32768, 32769, 40000, 65535.",
     },
     "C15": {
-        "rule": "op 14: well-formed arguments of every kind (some with blobs up to 65000 bytes) x byte order; op 15: configurations of every payload kind, with and without extended header, optional add_storage_header.",
+        "rule": "op 14: well-formed arguments of every kind (some with blobs up to 65000 bytes) x byte order; op 15: configurations of every payload kind, with and without extended header, optional add_storage_header. One argument in six is OUTSIDE the well-formed domain (value of another kind, name/unit presence against the variable-info flag, another kind) to drive Argument::valid and the writer's fallback arms.",
     },
     "C16": {
         "rule": "op 28: dialect (unused type-info bits, bool with any TYLE, NUL-padded/invalid-UTF-8 ids, interior NULs, size-0 strings, reserved SCOD, unknown MSTP/MTIN) and mutated inputs; the chain parse -> serialise -> parse -> serialise is compared token for token.",
     },
     "C19": {
         "extra_property_files": ["C19b"],
-        "rule": "op 3: all strings of length <= 3 (quick) / <= 4 (thorough) over the 25-byte boundary alphabet x sizes 0..6, random strings up to 70000 bytes x sizes incl. 0 and 65535; op 8 on messages whose ids are arbitrary bytes.",
+        "rule": "op 3: all strings of length <= 3 (quick) / <= 4 (thorough) over the 25-byte boundary alphabet x sizes 0..6, random strings up to 70000 bytes x sizes incl. 0 and 65535; op 8 on messages whose ids are arbitrary bytes. Parsed messages are additionally checked by the id oracle (ECU / application / context / storage ids = the field rule on their 4 bytes).",
     },
     "C14": {
         "special": "ti_sweep",
@@ -84,7 +84,7 @@ PROPS = {
     },
     "C10": {
         "extra_property_files": ["C10b"],
-        "rule": "op 32: streams of 0-5 parts of 0-4 well-formed messages each (ids from a small vocabulary so they repeat, incl. the literal NONE and the empty id; half log messages incl. invalid levels; with/without extended header and ECU id; both storage modes), scanned by collect_statistics through the real reader with a recording collector; the parts merged left-to-right, right-to-left, balanced and right-nested.",
+        "rule": "op 32: streams of 0-5 parts of 0-4 well-formed messages each (ids from a small vocabulary so they repeat, incl. the literal NONE and the empty id; half log messages incl. invalid levels; with/without extended header and ECU id; both storage modes), scanned by collect_statistics through the real reader with a recording collector; the parts merged left-to-right, right-to-left, balanced and right-nested. Plus op 33: collect_statistics with a full recording collector over arbitrary byte streams (well-formed, truncated, hostile length fields, flipped bytes, random, wrong storage mode) under read schedules incl. Interrupted.",
         "assumptions": ["usize counters modelled as unbounded N", "FxHashMap iteration order abstracted (results compared sorted by id)"],
     },
 }
